@@ -218,6 +218,19 @@ pub mod env {
     pub uninterp spec fn raw_fields(raw: Vec<Vec<u8>>) -> Map<FieldIndex, GhostVal>;
     /// what a raw (encoded) entry value decodes to
     pub uninterp spec fn raw_value(raw: Seq<u8>) -> ScryptoValue;
+    /// ASSUMED: SBOR decoding at type T is a (partial) function of the bytes
+    pub uninterp spec fn dec<T>(raw: Seq<u8>) -> Option<T>;
+    /// sbor DecodeError: opaque
+    pub struct DecodeError;
+    #[verifier::external]
+    impl core::fmt::Debug for DecodeError {
+        fn fmt(&self, f: &mut core::fmt::Formatter<'_>) -> core::fmt::Result { f.write_str("DecodeError") }
+    }
+    /// radix-common scrypto_decode: total to Result, Ok exactly on the bytes that decode (as in unit c51_locked_state)
+    #[verifier::external_body]
+    pub fn scrypto_decode<T>(buf: &[u8]) -> (r: Result<T, DecodeError>)
+        ensures match dec::<T>(buf@) { Some(t) => r == Ok::<T, DecodeError>(t), None => r is Err }
+    { unimplemented!() }
     /// one entry of the Data collection
     pub ghost struct EntryG { pub value: Option<ScryptoValue>, pub locked: bool }
     pub type Kv = Map<NonFungibleLocalId, EntryG>;
@@ -300,10 +313,12 @@ pub mod env {
                 r is Err ==> final(self).state() == old(self).state(),
                 r matches Err(e) ==> !e.is_application_error();
 
-        /// removes the value (system_substates.rs `KeyValueEntrySubstate::remove`: value := None, lock flag kept)
+        /// removes the value (system_substates.rs `KeyValueEntrySubstate::remove`: value := None, lock flag kept) and
+        /// returns the encoding of the removed `Option<value>` (system.rs: `scrypto_encode(&value)`)
         fn key_value_entry_remove(&mut self, handle: KeyValueEntryHandle) -> (r: Result<Vec<u8>, E>)
             requires old(self).state().kv_handles.contains_key(handle)
             ensures
+                r matches Ok(bytes) ==> dec::<Option<ScryptoValue>>(bytes@) == Some(entry_of(old(self).state().kv, old(self).state().kv_handles[handle].0).value),
                 r is Ok ==> old(self).state().kv_handles[handle].1
                     && final(self).state() == (State { kv: old(self).state().kv.insert(old(self).state().kv_handles[handle].0,
                             EntryG { value: None, locked: entry_of(old(self).state().kv, old(self).state().kv_handles[handle].0).locked }), ..old(self).state() }),
